@@ -14,6 +14,9 @@ pub struct Profile {
     pub sync_every_op: bool,
     pub p_sync: u64, // percent chance of Sync after an op (sync kind)
     pub max_adv: u64,
+    /// start beyond the periodical-sync interval (records accumulate) and finish with a
+    /// sync() followed by a lookup of every key
+    pub far: bool,
 }
 
 pub fn gen_behaviour(rng: &mut Rng, p: &Profile, len: usize, id: u64) -> Value {
@@ -29,6 +32,9 @@ pub fn gen_behaviour(rng: &mut Rng, p: &Profile, len: usize, id: u64) -> Value {
     let sync_kind = p.kind == "sync";
     // a bias towards a few hot keys makes admission contests interesting
     let hot = 1 + rng.below(p.nkeys as u64) as u32;
+    if p.far {
+        ops.push(json!({"op": "Advance", "d": 1}));
+    }
     while ops.len() < len {
         let k = if rng.chance(1, 4) {
             hot
@@ -78,6 +84,13 @@ pub fn gen_behaviour(rng: &mut Rng, p: &Profile, len: usize, id: u64) -> Value {
             ops.push(json!({"op": "Sync"}));
         }
     }
+    if p.far {
+        ops.push(json!({"op": "Sync"}));
+        for kk in 1..=p.nkeys {
+            ops.push(json!({"op": "Get", "k": kk}));
+        }
+        ops.push(json!({"op": "Sync"}));
+    }
     json!({"id": id, "cfg": cfg, "ops": ops})
 }
 
@@ -94,6 +107,7 @@ pub fn profile(name: &str) -> Profile {
             sync_every_op: false,
             p_sync: 0,
             max_adv: 2,
+            far: false,
         },
         "unsync-mid" => Profile {
             kind: "unsync",
@@ -106,6 +120,7 @@ pub fn profile(name: &str) -> Profile {
             sync_every_op: false,
             p_sync: 0,
             max_adv: 3,
+            far: false,
         },
         "sync-small" => Profile {
             kind: "sync",
@@ -118,6 +133,7 @@ pub fn profile(name: &str) -> Profile {
             sync_every_op: false,
             p_sync: 30,
             max_adv: 2,
+            far: false,
         },
         "sync-mid" => Profile {
             kind: "sync",
@@ -130,6 +146,7 @@ pub fn profile(name: &str) -> Profile {
             sync_every_op: false,
             p_sync: 25,
             max_adv: 3,
+            far: false,
         },
         "sync-eager" => Profile {
             kind: "sync",
@@ -142,13 +159,89 @@ pub fn profile(name: &str) -> Profile {
             sync_every_op: true,
             p_sync: 100,
             max_adv: 2,
+            far: false,
+        },
+        "sync-far" => Profile {
+            kind: "sync",
+            nkeys: 3,
+            caps: vec![1, 2, 2, 3],
+            ttls: vec![-1, -1, -1, 4],
+            ttis: vec![-1, -1, 3],
+            weights: vec![1, 1, 2],
+            hashers: vec!["id"],
+            sync_every_op: false,
+            p_sync: 10,
+            max_adv: 1,
+            far: true,
         },
         other => panic!("unknown profile {}", other),
     }
 }
 
+/// Far-regime bursts, enumerated: fill the cache and sync; let time pass (optionally with an
+/// invalidate_all); then every sequence of `len` un-synced calls over three keys; then sync and
+/// look every key up.
+fn gen_bursts(len: usize, count: u64, seed: u64) {
+    use std::io::Write;
+    let out = std::io::stdout();
+    let mut o = std::io::BufWriter::new(out.lock());
+    let nkeys = 3u32;
+    let mut alphabet: Vec<Value> = Vec::new();
+    for k in 1..=nkeys {
+        alphabet.push(json!({"op": "Insert", "k": k}));
+        alphabet.push(json!({"op": "Invalidate", "k": k}));
+        alphabet.push(json!({"op": "Get", "k": k}));
+    }
+    let total = (alphabet.len() as u64).pow(len as u32);
+    let mut rng = Rng::new(seed);
+    let mut id = 0u64;
+    for cap in [1i64, 2, 3] {
+        for (ia, tti) in [(false, -1i64), (true, -1), (false, 1)] {
+            // all sequences if they are few enough, otherwise a seeded sample of `count`
+            let n = if total <= count { total } else { count };
+            for j in 0..n {
+                let mut code = if total <= count { j } else { rng.below(total) };
+                let cfg = json!({"kind": "sync", "cap": cap, "ttl": -1, "tti": tti, "weigher": false,
+                    "hasher": "id", "nkeys": nkeys, "lean": false, "seed": 0});
+                let mut ops: Vec<Value> = Vec::new();
+                let mut vid = 1u32;
+                for k in 1..=(cap as u32).min(nkeys) {
+                    ops.push(json!({"op": "Insert", "k": k, "v": vid, "w": 1}));
+                    vid += 1;
+                }
+                ops.push(json!({"op": "Sync"}));
+                ops.push(json!({"op": "Advance", "d": 1}));
+                if ia {
+                    ops.push(json!({"op": "InvalidateAll"}));
+                }
+                for _ in 0..len {
+                    let a = alphabet[(code % alphabet.len() as u64) as usize].clone();
+                    code /= alphabet.len() as u64;
+                    if a["op"] == "Insert" {
+                        ops.push(json!({"op": "Insert", "k": a["k"], "v": vid, "w": 1}));
+                        vid += 1;
+                    } else {
+                        ops.push(a);
+                    }
+                }
+                ops.push(json!({"op": "Sync"}));
+                for k in 1..=nkeys {
+                    ops.push(json!({"op": "Get", "k": k}));
+                }
+                ops.push(json!({"op": "Sync"}));
+                writeln!(o, "{}", json!({"id": id, "cfg": cfg, "ops": ops})).unwrap();
+                id += 1;
+            }
+        }
+    }
+}
+
 pub fn cmd_gen(args: &[String]) {
     // gen <profile> <seed> <count> <len>
+    if args[0] == "sync-burst" {
+        gen_bursts(args[3].parse().unwrap(), args[2].parse().unwrap(), args[1].parse().unwrap());
+        return;
+    }
     let p = profile(&args[0]);
     let seed: u64 = args[1].parse().unwrap();
     let count: u64 = args[2].parse().unwrap();
